@@ -93,3 +93,6 @@ LM_CYCLE13 = _f([[i, v] for i, v in enumerate([39, 33, 30, 29, 19, 16, 13, 12, 1
 # 5-point non-monotone curve with a dip that projects before the start of the root chord: Distance.shortest and Distance.perpendicular
 # choose different split points of the root range (index 1 vs index 3)
 DIP5 = _f([[0, 10], [1, 7], [2, '14.5'], [3, 11], [4, 20]])
+# 6-point non-monotone curve whose global cost is not monotone along the fixed-size refinement sequence (the threshold can be accepting at S_k
+# and rejecting again at S_m, m > k): separates "stop at the first acceptable refinement, then top up" from "top up, then continue refining"
+BUMP6 = _f([[0, 1], [1, 6], [2, 1], [3, 4], [4, 2], [5, 0]])
